@@ -144,6 +144,8 @@ def _replay_once(d):
     geo = G.build(mg, spec)
     if d['fn'] == 'track':
         return _replay_track(d, mg, geo, spec)
+    if d['fn'] == 'otrack':
+        return _replay_otrack(d, mg, geo, spec)
     fx, fy = num(d['point']['x']), num(d['point']['y'])
     x, y = float(fx), float(fy)
     # exact oracle at the float point actually passed to the code
@@ -236,4 +238,99 @@ def _replay_track(d, mg, geo, spec):
     if any(dist[i] > dist[i + 1] + eps for i in range(len(dist) - 1)): bad.append('not ordered along the line')
     if len(set(listed)) != len(listed): bad.append('column listed twice')
     msg = '%s %s line %r -> %r: track %r' % (d['geo'], d['orient'], p0, p1, [(t[0].name, list(map(float, t[1])), list(map(float, t[2]))) for t in track])
+    return bool(bad), msg + ('; ' + '; '.join(bad[:4]) if bad else '; oracle agrees')
+
+
+def _inside_intervals(P, p0, p1):
+    """Exact parts [t0, t1] (t in [0, 1] along p0 -> p1) of the segment that lie inside polygon P (any simple polygon):
+    cut the segment at every crossing with an edge line segment and test the mid-point of each part with the winding oracle."""
+    ts = {Fraction(0), Fraction(1)}
+    dx, dy = p1[0] - p0[0], p1[1] - p0[1]
+    n = len(P)
+    for i in range(n):
+        (ax, ay), (bx, by) = P[i], P[(i + 1) % n]
+        ex, ey = bx - ax, by - ay
+        det = dx * ey - dy * ex
+        if det == 0: continue
+        t = ((ax - p0[0]) * ey - (ay - p0[1]) * ex) / det
+        s = ((ax - p0[0]) * dy - (ay - p0[1]) * dx) / det
+        if 0 <= s <= 1 and 0 < t < 1: ts.add(t)
+    ts = sorted(ts)
+    parts = []
+    for a, b in zip(ts[:-1], ts[1:]):
+        m = (a + b) / 2
+        if G.winding_contains(P, p0[0] + m * dx, p0[1] + m * dy):
+            if parts and parts[-1][1] == a: parts[-1][1] = b
+            else: parts.append([a, b])
+    return parts
+
+
+def _replay_otrack(d, mg, geo, spec):
+    """oblique line with the counterexample's offset: real column_track against an exact oracle (Fractions): every listed
+    segment must be one of the parts of the line inside that column, in order along the line, and every part longer than
+    1e-3 of the column's longest side must be listed."""
+    import numpy as np, math
+    dx, dy = [Fraction(v) for v in d['D']]
+    A = [Fraction(v) for v in d['A']]; L = Fraction(d['L']); o = num(d['o'])
+    p0 = [float(A[0] - o * dy), float(A[1] + o * dx)]
+    p1 = [float(A[0] - o * dy + L * dx), float(A[1] + o * dx + L * dy)]
+    try:
+        track = geo.column_track([np.array(p0), np.array(p1)])
+    except Exception as ex:
+        return True, 'column_track raised %s: %s' % (type(ex).__name__, ex)
+    q0 = (Fraction(p0[0]), Fraction(p0[1])); q1 = (Fraction(p1[0]), Fraction(p1[1]))
+    vx, vy = q1[0] - q0[0], q1[1] - q0[1]
+    vv = vx * vx + vy * vy
+    length = Fraction(math.sqrt(float(vv)))
+    names = [c[0] for c in spec['columns']]
+    parts, tol, notch = {}, {}, {}
+    minside = None
+    for name in names:
+        P = [(Fraction(x), Fraction(y)) for x, y in G.polygon_of(spec, name)]
+        parts[name] = _inside_intervals(P, q0, q1)
+        sl = [math.sqrt(float((P[i][0] - P[(i + 1) % len(P)][0]) ** 2 + (P[i][1] - P[(i + 1) % len(P)][1]) ** 2)) for i in range(len(P))]
+        tol[name] = Fraction(max(sl)) * Fraction(1e-3) * (1 + Fraction(1, 10 ** 9))
+        minside = min(sl) if minside is None else min(minside, min(sl))
+        # non-convex column: a segment may span a notch clip shorter than 1e-3 of the column's diameter
+        n = len(P)
+        a2 = sum(P[i][0] * P[(i + 1) % n][1] - P[(i + 1) % n][0] * P[i][1] for i in range(n))
+        Q = P if a2 > 0 else P[::-1]
+        convex = all((Q[(i + 1) % n][0] - Q[i][0]) * (Q[(i + 2) % n][1] - Q[i][1]) - (Q[(i + 1) % n][1] - Q[i][1]) * (Q[(i + 2) % n][0] - Q[i][0]) >= 0 for i in range(n))
+        diam = math.sqrt(float(max((a[0] - b[0]) ** 2 + (a[1] - b[1]) ** 2 for a in P for b in P)))
+        notch[name] = Fraction(0) if convex else Fraction(diam) * Fraction(1e-3) * (1 + Fraction(1, 10 ** 9))
+    eps = (Fraction(minside) / 10 ** 6 + length / 10 ** 8) * 2
+    def tpar(p):
+        w = (Fraction(float(p[0])) - q0[0], Fraction(float(p[1])) - q0[1])
+        return (w[0] * vx + w[1] * vy) / vv, abs(w[0] * vy - w[1] * vx) / length
+    bad = []
+    used = set()
+    last_in = None
+    seen = []
+    for (col, pin, pout) in track:
+        (tin, win), (tout, wout) = tpar(pin), tpar(pout)
+        if win > eps or wout > eps: bad.append('%r: entry/exit off the line by %.3g / %.3g' % (col.name, float(win), float(wout)))
+        hit = None
+        pl = parts.get(col.name, [])
+        for i in range(len(pl)):
+            for j in range(i, len(pl)):
+                if abs(tin - pl[i][0]) * length <= eps and abs(tout - pl[j][1]) * length <= eps and \
+                        all((pl[m + 1][0] - pl[m][1]) * length <= notch[col.name] for m in range(i, j)):
+                    hit = tuple(range(i, j + 1))
+        if hit is None:
+            bad.append('%r listed from %.6g to %.6g of the line, but the parts of the line inside it are %r' % (
+                col.name, float(tin * length), float(tout * length), [(float(a * length), float(b * length)) for a, b in parts.get(col.name, [])]))
+        elif any((col.name, m) in used for m in hit): bad.append('%r listed twice for the same part' % col.name)
+        else: used.update((col.name, m) for m in hit)
+        if last_in is not None and tin < last_in: bad.append('segment of %r out of order' % col.name)
+        for (pn, pa, pb) in seen:
+            if (min(tout, pb) - max(tin, pa)) * length > eps + notch.get(col.name, 0) + notch.get(pn, 0):
+                bad.append('segments of %r and %r overlap over a length of %.6g' % (pn, col.name, float((min(tout, pb) - max(tin, pa)) * length)))
+        seen.append((col.name, tin, tout))
+        last_in = tin
+    for name in names:
+        for j, (a, b) in enumerate(parts[name]):
+            if (name, j) not in used and (b - a) * length > tol[name] + eps:
+                bad.append('%r is crossed over a length of %.6g (%.3g of its longest side) but that part is missing from the track' % (
+                    name, float((b - a) * length), float((b - a) * length / (tol[name] * 1000))))
+    msg = '%s line %r -> %r: track %r' % (d['geo'], p0, p1, [(t[0].name, [float(v) for v in t[1]], [float(v) for v in t[2]]) for t in track])
     return bool(bad), msg + ('; ' + '; '.join(bad[:4]) if bad else '; oracle agrees')
